@@ -254,7 +254,7 @@ package lib
 //@ func (r *RegisteredDecoys) markActive(d *DecoyRegistration)
 //@   requires r != nil && d != nil && !held(&r.m) && rheld(&r.m) == 0
 // representation invariant of the timeout index: no nil records (track is the only writer and stores a fresh record)
-//@   requires forall k string :: k in r.decoysTimeouts ==> r.decoysTimeouts[k] != nil
+//@   requires @SAFETY: forall k string :: k in r.decoysTimeouts ==> r.decoysTimeouts[k] != nil
 //@   atcall dynamic#1 before: assert @C09 @C08: held(&r.m) && regTimeout.status == regStatusUsed && arg0 == d
 //@   atcall dynamic#1 before: snap markedUsed := true
 //@   dynamiccalls assigns memory
@@ -481,3 +481,39 @@ package lib
 //@   invariant forall k string :: k in regs ==> k in r.decoys[ipString(phantomAddr)] && r.decoys[ipString(phantomAddr)][k].Valid && regs[k] == r.decoys[ipString(phantomAddr)][k]
 //@   invariant forall k string :: k in convertedRegs ==> k in regs && convertedRegs[k] == box(regs[k])
 //@   modifies mapof(convertedRegs)
+
+// ---------------- what the connection handler (cmd/application) relies on ----------------
+//@ import bytes "bytes"
+// Interface contract of a wrapping transport, from the documentation of the interface: a transport that answers
+// "try again" or "not this transport" has not touched the connection (no Write, no Close, no Read) and has consumed
+// nothing of the buffered data. (Proved for the min and prefix implementations in their packages; assumed for obfs4.)
+// Errors it returns are of the network stack's shape (C17 vocabulary).
+//@ func (t WrappingTransport) WrapConnection(data *bytes.Buffer, conn net.Conn, phantom net.IP, rm transports.RegManager) (transports.Registration, net.Conn, error)
+//@   ensures result2 == transports.ErrTryAgain || result2 == transports.ErrNotTransport ==> nwrites(conn) == old(nwrites(conn)) && closed(conn) == old(closed(conn)) && rdEnded(conn) == old(rdEnded(conn)) && bufStr(data) == old(bufStr(data))
+// the two answers are given as the bare sentinel values, never wrapped inside another error
+//@   ensures result2 != transports.ErrTryAgain && result2 != transports.ErrNotTransport ==> !errIs(result2, transports.ErrTryAgain) && !errIs(result2, transports.ErrNotTransport) && (typeis(result2, *net.OpError) && unboxptr(result2, *net.OpError).Err != nil ==> !errIs(unboxptr(result2, *net.OpError).Err, transports.ErrTryAgain) && !errIs(unboxptr(result2, *net.OpError).Err, transports.ErrNotTransport))
+//@   ensures netStackErr(result2)
+// a match returns a connection and a registration obtained from the registration manager (a *DecoyRegistration)
+//@   ensures result2 == nil ==> result1 != nil && typeis(result0, *DecoyRegistration) && unboxptr(result0, *DecoyRegistration) != nil
+//@   assigns nwrites(conn), nwritten(conn), txh(conn), wfail(conn), closed(conn), rdEnded(conn), rxh(conn), nread(conn), dlSet(conn), bufStr(data), obj(data)
+//@ func (t Transport) Name() string
+//@   assigns nothing
+//@ func (t Transport) LogPrefix() string
+//@   assigns nothing
+
+//@ func (regManager *RegistrationManager) GetWrappingTransports() map[pb.TransportType]WrappingTransport
+//@   requires regManager != nil && regManager.registeredDecoys != nil && !held(&regManager.registeredDecoys.m) && rheld(&regManager.registeredDecoys.m) == 0
+//@   ensures @C09: !held(&regManager.registeredDecoys.m) && rheld(&regManager.registeredDecoys.m) == 0
+//@   ensures fresh(result) && result != nil
+//@   ensures forall k pb.TransportType :: k in result ==> result[k] != nil
+//@   assigns rheld(&regManager.registeredDecoys.m), acq(&regManager.registeredDecoys.m)
+//@ loop 1:
+//@   invariant fresh(m) && m != nil && regManager != nil && regManager.registeredDecoys != nil && rheld(&regManager.registeredDecoys.m) == 1 && !held(&regManager.registeredDecoys.m)
+//@   invariant forall k pb.TransportType :: k in m ==> m[k] != nil
+//@   modifies mapof(m)
+
+//@ func (r *RegisteredDecoys) countRegistrations(darkDecoyAddr net.IP) int
+//@   requires r != nil && !held(&r.m) && rheld(&r.m) == 0
+//@   ensures @C09: !held(&r.m) && rheld(&r.m) == 0
+//@   ensures result >= 0
+//@   assigns rheld(&r.m), acq(&r.m)
